@@ -83,8 +83,14 @@ func colReveal(column string) revealFn {
 }
 
 func entryPoints() []entryPoint {
-	asHandler := func() crypto.ContainerHandler { h, _ := crypto.GetHandlerByEnvelopeID(crypto.AcraStructEnvelopeID); return h }
-	abHandler := func() crypto.ContainerHandler { h, _ := crypto.GetHandlerByEnvelopeID(crypto.AcraBlockEnvelopeID); return h }
+	asHandler := func() crypto.ContainerHandler {
+		h, _ := crypto.GetHandlerByEnvelopeID(crypto.AcraStructEnvelopeID)
+		return h
+	}
+	abHandler := func() crypto.ContainerHandler {
+		h, _ := crypto.GetHandlerByEnvelopeID(crypto.AcraBlockEnvelopeID)
+		return h
+	}
 	trDecrypt := revealFn{"translator.Decrypt", func(e *envrig.Env, id, y []byte, _ *caseCtx) ([]byte, error) {
 		return e.Translator.Decrypt(bg, y, id, nil)
 	}}
@@ -174,10 +180,14 @@ func entryPoints() []entryPoint {
 			},
 			reveals: []revealFn{regProcess, regDecAB, trDecryptSym, colReveal("plain_ab")}},
 		{name: "registry.EncryptWithHandler(as)", kind: "acrastruct", framable: true,
-			protect: func(e *envrig.Env, id, x []byte) ([]byte, error) { return e.Registry.EncryptWithHandler(asHandler(), id, x) },
+			protect: func(e *envrig.Env, id, x []byte) ([]byte, error) {
+				return e.Registry.EncryptWithHandler(asHandler(), id, x)
+			},
 			reveals: []revealFn{regProcess, regDecAS, colReveal("plain_as")}},
 		{name: "registry.EncryptWithHandler(ab)", kind: "acrablock", framable: true,
-			protect: func(e *envrig.Env, id, x []byte) ([]byte, error) { return e.Registry.EncryptWithHandler(abHandler(), id, x) },
+			protect: func(e *envrig.Env, id, x []byte) ([]byte, error) {
+				return e.Registry.EncryptWithHandler(abHandler(), id, x)
+			},
 			reveals: []revealFn{regProcess, regDecAB, colReveal("plain_ab")}},
 		{name: "translator.Encrypt", kind: "acrastruct", framable: true,
 			protect: func(e *envrig.Env, id, x []byte) ([]byte, error) { return e.Translator.Encrypt(bg, x, id, nil) },
@@ -246,17 +256,17 @@ func lookalike(class string) bool {
 }
 
 type job struct {
-	env     *envrig.Env
-	cl      client
-	ep      entryPoint
-	class   string
-	x       []byte
-	framing int
-	seedTag string
-	embed   string // "", "own", "other"
+	env       *envrig.Env
+	cl        client
+	ep        entryPoint
+	class     string
+	x         []byte
+	framing   int
+	seedTag   string
+	embed     string // "", "own", "other"
 	embedKind string // what the embedded envelope is: raw-acrastruct | raw-acrablock | container-as | container-ab
-	inner   []byte // plaintext inside the embedded/whole envelope when x is itself an envelope
-	whole   bool   // x is exactly an earlier-produced protected value
+	inner     []byte // plaintext inside the embedded/whole envelope when x is itself an envelope
+	whole     bool   // x is exactly an earlier-produced protected value
 }
 
 // Run is the C01 monitor.
@@ -464,6 +474,12 @@ func Run(r *ev.Run) {
 		r.RequireAtLeast("roundtrip:"+ep.name, 20)
 	}
 	r.RequireAtLeast("passthrough_of_valid_envelope", 20)
+	for _, e := range envs {
+		if e.Name == "v2mem" {
+			longHistory(r, gen.New(r.Seed, "c01-long-history"), e, eps)
+		}
+	}
+	r.RequireAtLeast("long_history_values_revealed:older-of-two-keys-with-one-id", 1)
 	if ProxyLayer != nil {
 		ProxyLayer(r)
 	}
